@@ -187,7 +187,8 @@ func sigsEqual(a, b []note.Signature) bool {
 	return true
 }
 
-var c07TextAtoms = []string{"hello\n", "go.sum database tree\n", "42\n", "\n", "— fake AAAAAAAA\n", "— log.example/a AAAABBBBCCCC\n", "héllo wörld\n", "世界\n", "tab is not allowed? no: spaces   \n", "a", " ", "=", "+", "\n\n", "line\n"}
+var c07TextAtoms = []string{"hello\n", "go.sum database tree\n", "42\n", "\n", "— fake AAAAAAAA\n", "— log.example/a AAAABBBBCCCC\n", "héllo wörld\n", "世界\n", "tab is not allowed? no: spaces   \n", "a", " ", "=", "+", "\n\n", "line\n",
+	"replacement \uFFFD char\n", "\uFFFD", "del\x7f nel\u0085 ls\u2028 nbsp\u00a0\n", "\U0001F600\n", "\U0010FFFF"}
 
 func c07Text(src *choice.Src) string {
 	var b strings.Builder
